@@ -1458,7 +1458,7 @@ func (s *Server) processDisconnect(cl *Client, pk packets.Packet) error {
 		cl.Properties.Props.SessionExpiryIntervalFlag = true
 	}
 
-	if pk.ReasonCode == packets.CodeDisconnectWillMessage.Code { // [MQTT-3.1.2.5] Non-normative comment
+	if pk.ReasonCode != packets.CodeDisconnect.Code { // only a normal disconnection (0x00) discards the will [MQTT-3.14.4-3] [MQTT-3.1.2.5]
 		return packets.CodeDisconnectWillMessage
 	}
 
